@@ -1,13 +1,18 @@
 SPECIFICATION Spec
 CONSTANTS
-  Pool <- PoolI
-  Kids <- KidsI
-  TypeOf <- TypeI
-  HashOf <- HashI
+  Pool <- PoolX
+  Kids <- KidsX
+  TypeOf <- TypeX
+  HashOf <- HashX
   MaxEnc = 3
   Aux = TRUE
   AllowUnregistered = TRUE
   PinDecoded = TRUE
   SeenByHashOnly = FALSE
-  Emitting = TRUE
+  Emitting = FALSE
 CHECK_DEADLOCK FALSE
+INVARIANTS
+  FIFO
+  PosOk
+  SelfContained
+  TabOk
